@@ -4,7 +4,7 @@ import z3
 from pyvc.symex import Contract, Loop, spec, View, Outcomes, to_z3, as_real
 from pyvc.symval import (TArr, TArr2, Arr2C, TBool, TFloat, TInt, TObj, TOpaque, TReal, TSeq, TStr, TConst, NR, TOptional, fresh,
                          I, R, Bo, MaybeNone, Func, Opaque, TNone, Module, Ref, ArrC, ListC, DictC, Unsupported, Obj, ExcVal, SeqC,
-                         TRowDict, RowDictC)
+                         TRowDict, RowDictC, Mark)
 
 FD = 'andes/variables/dae.py'
 FO = 'andes/models/misc/output.py'
@@ -123,8 +123,10 @@ ROWS = z3.SeqSort(ROW)
 
 
 def write_npz(pid):
-    """DAE.write_npz with limit_store: the file receives exactly the rows not written yet (ts.txyz[idx_ptr:]) after what it
-    already holds, and idx_ptr moves to the end -- no row twice, none skipped."""
+    """DAE.write_npz with limit_store: the file receives exactly the rows not written yet (rows[idx_ptr:] of the series as stored
+    now) after what it already holds, and idx_ptr moves to the end -- no row twice, none skipped.  ``ts.txyz`` is a cached
+    attribute: it equals the stored series only when it has not been computed before (first write) or after ``ts.unpack()``."""
+    TRUE_ROWS = fresh('rows_as_stored_now', ROWS)
     def savez(ex, st, args, kw, node):
         st.ghost['file'] = kw['data'].term
         st.ghost['saved'] = True
@@ -157,10 +159,11 @@ def write_npz(pid):
         return Opaque(z3.Concat(a.term, b.term))
 
     def unpack(ex, st, args, kw, node):
+        st.store('self.ts.txyz', Opaque(TRUE_ROWS))      # callee contract of DAETimeSeries.unpack: the cache is refreshed
         return None
 
     def post(old, new, res):
-        rows = old.get('self.ts.txyz').term
+        rows = TRUE_ROWS
         p = old.z('self.ts.idx_ptr')
         f0, f1 = old.st.ghost['file'], new.st.ghost['file']
         newrows = z3.SubSeq(rows, p, z3.Length(rows) - p)
@@ -171,23 +174,62 @@ def write_npz(pid):
             z3.Implies(z3.Not(app), z3.And(f1 == newrows, new.z('self.ts.idx_ptr') == z3.Length(rows), new.z('self._write_append')))))
 
     def post_whole(old, new, res):
-        rows = old.get('self.ts.txyz').term
+        rows = TRUE_ROWS
         return z3.Implies(z3.Not(old.z('self.system.TDS.config.limit_store')), new.st.ghost['file'] == rows)
     c = Contract(FD, 'DAE.write_npz', pid=pid, params={'self': TObj(), 'file_path': TStr()},
                  schema={'self.system.TDS.config.limit_store': TBool(), 'self.ts.txyz': TOpaque('RowSeq'), 'self._write_append': TBool(),
                          'self.ts.idx_ptr': TInt(), 'self.ts.t': TSeq()},
-                 requires=[('pointer-in-range', lambda v: z3.And(v.z('self.ts.idx_ptr') >= 0,
-                                                                  v.z('self.ts.idx_ptr') <= z3.Length(v.get('self.ts.txyz').term))),
-                           ('one-row-per-time-stamp', lambda v: v.arr('self.ts.t').n == z3.Length(v.get('self.ts.txyz').term))],
+                 requires=[('pointer-in-range', lambda v: z3.And(v.z('self.ts.idx_ptr') >= 0, v.z('self.ts.idx_ptr') <= z3.Length(TRUE_ROWS))),
+                           ('one-row-per-time-stamp', lambda v: v.arr('self.ts.t').n == z3.Length(TRUE_ROWS)),
+                           ('cache-fresh-unless-appending(the-series-was-reset-after-the-previous-off-load)',
+                            lambda v: z3.Implies(z3.Or(z3.Not(v.z('self._write_append')), z3.Not(v.z('self.system.TDS.config.limit_store'))),
+                                                 v.get('self.ts.txyz').term == TRUE_ROWS))],
                  ghost_init={'file': z3.Const('file0', ROWS), 'saved': False},
                  calls={'np.savez_compressed': savez, 'np.load': load, '__getitem__': getitem, 'len': len_h, 'np.vstack': vstack,
                         'self.ts.unpack': unpack},
                  ensures=[('append-protocol:file+=rows[idx_ptr:];pointer-to-end', post), ('unlimited-store:whole-series-written', post_whole)],
-                 modifies=['self._write_append', 'self.ts.idx_ptr'])
+                 modifies=['self._write_append', 'self.ts.idx_ptr', 'self.ts.txyz'])
     # the RowSeq opaque sort must be the z3 sequence sort
     c.schema['self.ts.txyz'] = _RowSeq()
     c.merge = False
     return c
+
+
+def replay_write_npz(obligation, model, meta):
+    """native: a real chunked run (limit_store=1, several off-loads) must leave in the npz file exactly the time stamps of the same
+    run kept in memory"""
+    import contextlib
+    import io
+    import logging
+    import os
+    import shutil
+    import tempfile
+    import numpy as np
+    import andes
+    logging.getLogger('andes').setLevel(logging.CRITICAL)
+    case = andes.get_case('kundur/kundur_full.xlsx')
+    out = tempfile.mkdtemp(prefix='verif_npz_')
+    try:
+        with contextlib.redirect_stdout(io.StringIO()), contextlib.redirect_stderr(io.StringIO()):
+            ref = andes.load(case, default_config=True, no_output=True)
+            ref.TDS.config.tf = 2.5
+            ref.PFlow.run()
+            ref.TDS.run()
+            ss = andes.load(case, default_config=True, output_path=out)
+            ss.TDS.config.limit_store, ss.TDS.config.max_store, ss.TDS.config.tf = 1, 15, 2.5
+            ss.PFlow.run()
+            ss.TDS.run()
+            ss.TDS.save_output()
+        data = np.load(os.path.join(out, 'kundur_full_out.npz'))['data']
+        t_ref = np.array(ref.dae.ts.t)
+        if len(data) != len(t_ref) or not np.allclose(data[:, 0], t_ref, rtol=0, atol=1e-12):
+            missing = [float(t) for t in t_ref if not np.any(np.isclose(data[:, 0], t, rtol=0, atol=1e-12))] if len(data) else list(t_ref)
+            return {'confirmed': True, 'inputs': {'case': 'kundur_full', 'limit_store': 1, 'max_store': 15, 'tf': 2.5},
+                    'observed': 'npz holds %d rows, the run has %d accepted steps; first missing stamps %r' % (len(data), len(t_ref), missing[:5]),
+                    'native_cmd': 'TDS.run() with limit_store=1 and file output, then np.load(<case>_out.npz)'}
+    finally:
+        shutil.rmtree(out, ignore_errors=True)
+    return {'confirmed': False, 'tried': 1}
 
 
 class _RowSeq(TOpaque):
@@ -297,3 +339,73 @@ def in1d(pid):
                            schema={'self.xidx': TArr(kind='int'), 'self.yidx': TArr(kind='int')}, ghost_init={'isin_args': None},
                            calls={'np.isin': isin}, ensures=[('np.isin(%sidx, addr)' % vc, post)], modifies=[]))
     return cs
+
+
+FPL = 'andes/plot.py'
+
+
+def export_csv(pid):
+    """TDSData.export_csv: the header and the body written to the file are built for the same index list, in the same order."""
+    def get_header(ex, st, args, kw, node):
+        st.ghost['header_for'] = args[0]
+        return Mark('header')
+
+    def get_values(ex, st, args, kw, node):
+        st.ghost['body_for'] = args[0]
+        return Mark('body')
+
+    def post(old, new, res):
+        h, b = new.st.ghost.get('header_for'), new.st.ghost.get('body_for')
+        return z3.BoolVal(h is not None and b is not None and ((isinstance(h, Ref) and isinstance(b, Ref) and h.loc == b.loc) or h is b))
+    c = Contract(FPL, 'TDSData.export_csv', pid=pid,
+                 params={'self': TObj(), 'path': TStr(), 'idx': TSeq(minlen=1), 'header': TConst(None), 'formatted': TBool(), 'sort_idx': TBool(),
+                         'fmt': TStr()},
+                 schema={'self._csv_file': TStr(), 'self._idx': TSeq()}, ghost_init={'header_for': None, 'body_for': None},
+                 calls={'self.get_header': get_header, 'self.get_values': get_values, 'len': lambda ex, st, a, k, n: fresh('len', I),
+                        'open': lambda ex, st, a, k, n: Mark('file'), '<value>.write': lambda ex, st, a, k, n: None,
+                        '<value>.join': lambda ex, st, a, k, n: 'line', 'np.savetxt': lambda ex, st, a, k, n: None,
+                        'logger.info': lambda ex, st, a, k, n: None,
+                        'sorted': lambda ex, st, a, k, n: st.new_ref(SeqC(fresh('sorted', z3.ArraySort(I, R)), st.content(a[0]).n, None), 'sorted')},
+                 globals_={'open': Func('open'), 'sorted': Func('sorted')},
+                 ensures=[('header-and-body-built-for-the-same-index-list', post)], allow_raise=['ValueError'], modifies=[])
+    c.merge = False
+    return c
+
+
+def replay_export_csv(obligation, model, meta):
+    """native: export a selection given in non-ascending order from a real result file and compare every column with the values
+    of the variable named in its header"""
+    import contextlib
+    import io
+    import logging
+    import os
+    import shutil
+    import tempfile
+    import numpy as np
+    import andes
+    from andes.plot import TDSData
+    logging.getLogger('andes').setLevel(logging.CRITICAL)
+    out = tempfile.mkdtemp(prefix='verif_csv_')
+    try:
+        with contextlib.redirect_stdout(io.StringIO()), contextlib.redirect_stderr(io.StringIO()):
+            ss = andes.load(andes.get_case('kundur/kundur_full.xlsx'), default_config=True, output_path=out)
+            ss.TDS.config.tf = 0.3
+            ss.PFlow.run()
+            ss.TDS.run()
+            ss.TDS.save_output()
+            td = TDSData(full_name=os.path.join(out, 'kundur_full_out'), path=out)
+            idx = [7, 3, 12, 1]
+            path = td.export_csv(path=os.path.join(out, 'sel.csv'), idx=idx)
+        with open(path) as f:
+            header = f.readline().strip().split(',')
+        body = np.loadtxt(path, delimiter=',', skiprows=1)
+        names = td.get_header(idx)
+        for col, (name, i) in enumerate(zip(names, idx)):
+            want = td.get_values([i])[:, 0]
+            if header[col] != name or not np.allclose(body[:, col], want, rtol=0, atol=1e-12):
+                return {'confirmed': True, 'inputs': {'case': 'kundur_full tf=0.3', 'idx': idx},
+                        'observed': 'column %d is labelled %r but does not hold the values of variable #%d' % (col, header[col], i),
+                        'native_cmd': 'TDSData(<result>).export_csv(idx=[7, 3, 12, 1])'}
+    finally:
+        shutil.rmtree(out, ignore_errors=True)
+    return {'confirmed': False, 'tried': 1}
